@@ -33,11 +33,11 @@ PROPS['C19'] = {
     'claim': 'complete symbolic execution of package cmd\'s initialisation (variable initialisers and every init() in Go\'s order) under the pflag contract "XxxVar[P](p,..,value,..) ensures *p == value"; one obligation per registered option: the variable\'s value after all registrations equals the documented default. Exhaustive over all commands and options, whatever they are at the time of the run',
     'level_note': 'relative to the pflag/cobra contract (registration assigns the default; help prints DefValue; nothing else writes the option variables before flag parsing), go/ssa init order, the SMT solvers',
     'packages': ['./cmd'],
-    'functions': [],
+    'functions': ['cmd.RootCmd.PersistentPreRun'],
     'special': ['c19'],
     'trusted_base': TB_COMMON + ['spf13/pflag: (*FlagSet).TVar[P] assigns *p = value at registration and shows value as the default', 'spf13/cobra: Flags()/PersistentFlags() identity per command'],
     'assumptions': A_COMMON + ['RunE bodies may rewrite option variables after parsing (e.g. rootCpus clamped to NumCPU): not part of the property'],
-    'not_decided': ['what each RunE does with the value; PersistentPreRun rewriting seed'],
+    'not_decided': ['what each RunE does with the value (PersistentPreRun is under contract: the seed is used as given, -1 means the clock whether written out or omitted)'],
     'technique': 'contract-based deductive verification: symbolic execution of the real init() SSA under the pflag contract, equalities discharged by z3/cvc5',
 }
 
@@ -169,7 +169,7 @@ PROPS['C18'] = {
     'level_note': 'the engine never converts pointers to integers and compares pointers only for equality, so addresses are unobservable in the verified functions; rand is a function of the seed (A-RAND); acr alphabet construction, nexus writer label tables and cross-process byte identity are not under contract',
     'packages': ALLPK,
     'functions': [('asr.parsimonyUPPASS', {'match': [r'^inv\..*L2']}),
-                  ('(*tree.Tree).Rename', {'match': [r'^inv', r'^loopframe', r'^nil', r'^pre']})],
+                  ('(*tree.Tree).Rename', {'match': [r'^inv', r'^loopframe', r'^nil', r'^pre']}), 'cmd.RootCmd.PersistentPreRun'],
     'trusted_base': TB_COMMON,
     'assumptions': A_COMMON,
     'explanation': 'Functional-postcondition argument under demonic map iteration at the listed sites (DESIGN.md section 4, C18); not a whole-program determinism proof.',
